@@ -19,6 +19,7 @@ pub struct ProbeCounts {
     pub stale_after_2plus_reuses: u64,
     pub stale_after_growth: u64,
     pub rows_compared: u64,
+    pub wrong_archetype: u64,
     pub directs_by_source: std::collections::BTreeMap<&'static str, u64>,
     /// every direct handle obtained, per source (also the ones equal to one already recorded)
     pub directs_seen_by_source: std::collections::BTreeMap<&'static str, u64>,
@@ -194,6 +195,48 @@ impl<W: WorldOps> Engine<W> {
         }
     }
 
+    /// A dynamic key handed to *another* archetype's archetype-level API must be rejected:
+    /// accepting it would make the handle designate an entity it was not issued for.
+    pub fn check_wrong_archetype(&mut self, wi: usize, own: usize, key: Key, destroy_too: bool, pc: &mut ProbeCounts) {
+        const ARCH_LEVEL: [usize; 7] = [LK_A_CONTAINS, LK_A_TO_DIRECT, LK_A_RESOLVE, LK_A_VIEW, LK_A_BORROW, LK_RESOLVE_SLICES, LK_RESOLVE_BORROW_SLICES];
+        if self.archs.len() < 2 {
+            return;
+        }
+        let bi = (own + 1 + self.rng.below(self.archs.len() - 1)) % self.archs.len();
+        let b = self.archs[bi];
+        let api = *self.rng.pick(&ARCH_LEVEL);
+        let tags: &[&'static str] = if key.is_direct() { &["C09", "C03"] } else { &["C01", "C03"] };
+        let res = {
+            let s = self.worlds[wi].as_mut().unwrap();
+            guard(|| b.lookup(&mut s.w, api, key))
+        };
+        pc.wrong_archetype += 1;
+        match res {
+            Ok(None) => {}
+            Ok(Some(_)) => {
+                self.viol(Some(wi), tags, "wrong-archetype", format!("{}: {} accepted {:?}, a handle of archetype {}", b.name(), LOOKUP_NAMES[api], key, self.archs[own].name()));
+                return;
+            }
+            Err(c) => {
+                self.viol(Some(wi), tags, "wrong-archetype", format!("{}: {} panicked on {:?}, a handle of archetype {}: {}", b.name(), LOOKUP_NAMES[api], key, self.archs[own].name(), c.msg()));
+                return;
+            }
+        }
+        if destroy_too {
+            let before: Vec<usize> = (0..self.archs.len()).map(|i| self.archs[i].len(&self.sl(wi).w)).collect();
+            let res = {
+                let s = self.worlds[wi].as_mut().unwrap();
+                guard(|| b.destroy(&mut s.w, DS_ARCH, key))
+            };
+            let after: Vec<usize> = (0..self.archs.len()).map(|i| self.archs[i].len(&self.sl(wi).w)).collect();
+            match res {
+                Ok(DestroyOut::Absent) if before == after => {}
+                Ok(o) => self.viol(Some(wi), tags, "wrong-archetype", format!("{}::destroy({:?}) with a handle of archetype {} returned {:?} (lens {:?} -> {:?})", b.name(), key, self.archs[own].name(), o, before, after)),
+                Err(c) => self.viol(Some(wi), tags, "wrong-archetype", format!("{}::destroy({:?}) with a handle of archetype {} panicked: {}", b.name(), key, self.archs[own].name(), c.msg())),
+            }
+        }
+    }
+
     /// Runs the probe suite on world `wi`. `touched` are uids the last operation involved.
     pub fn probe(&mut self, wi: usize, full: bool, touched: &[usize], pc: &mut ProbeCounts) {
         if self.rep.failed() {
@@ -262,6 +305,12 @@ impl<W: WorldOps> Engine<W> {
                     }
                 }
             }
+            let (ai, h) = (self.sl(wi).m.ents[uid].arch, self.sl(wi).m.ents[uid].handle);
+            let destroy_too = self.rng.chance(1, 4);
+            self.check_wrong_archetype(wi, ai, Key::Any(h), destroy_too, pc);
+            if self.rep.failed() {
+                return;
+            }
         }
         for di in dis {
             for kind in 2..4 {
@@ -273,6 +322,12 @@ impl<W: WorldOps> Engine<W> {
                         return;
                     }
                 }
+            }
+            let (ai, dh) = (self.sl(wi).m.directs[di].arch, self.sl(wi).m.directs[di].handle);
+            let destroy_too = self.rng.chance(1, 4);
+            self.check_wrong_archetype(wi, ai, Key::DirectAny(dh), destroy_too, pc);
+            if self.rep.failed() {
+                return;
             }
         }
     }
